@@ -94,7 +94,7 @@ func txSegs(tx *btc.Tx) (s []Seg) {
 // Commands of the alphabet, in the order of the specification's Cmds.
 // A name with a trailing digit is a second valid instance of the same wire command (see wireName).
 var allCmds = []string{"version", "verack", "addr", "inv", "getdata", "notfound", "getblocks", "getheaders", "headers", "headers2",
-	"tx", "txo1", "txo2", "block", "block2", "cmpctblock", "cmpctblock2", "cmpctblock3", "cmpctblock4", "getblocktxn", "getblocktxn1", "getblocktxn3", "blocktxn", "ping", "pong",
+	"tx", "txo1", "txo2", "block", "block2", "cmpctblock", "cmpctblock2", "cmpctblock3", "cmpctblock4", "getblocktxn", "getblocktxn1", "getblocktxn3", "blocktxn", "blocktxn2", "idle", "ping", "pong",
 	"feefilter", "sendcmpct", "sendheaders", "getaddr", "getmp", "getmpdone", "xauth", "authack", "filterload", "unknown", "frame"}
 
 func wireName(cmd string) string {
@@ -109,6 +109,8 @@ func wireName(cmd string) string {
 		return "cmpctblock"
 	case "txo1", "txo2":
 		return "tx"
+	case "blocktxn2":
+		return "blocktxn"
 	case "getblocktxn1", "getblocktxn3":
 		return "getblocktxn"
 	}
@@ -195,6 +197,11 @@ func (w *World) valid(cmd string, nodeNonce []byte) []Seg {
 		s := []Seg{segF(w.b1Hash[:]), segC(1, 0)}
 		s = append(s, txSegs(w.tx1)...)
 		return s
+	case "blocktxn2": // for a block this connection never heard of
+		s := []Seg{segF(w.unkHash[0][:]), segC(1, 0)}
+		return append(s, txSegs(w.tx1)...)
+	case "idle": // no bytes: the peer stays silent while the node's tick runs
+		return nil
 	case "ping", "pong", "feefilter":
 		return []Seg{segF([]byte{9, 8, 7, 6, 5, 4, 3, 2})}
 	case "sendcmpct":
